@@ -1,4 +1,5 @@
 """C01 — observed values equal a from-scratch evaluation (structural clauses)."""
+import re
 from . import q
 from .callgraph import reachable
 from .cfg import DefUse, origins
@@ -595,7 +596,43 @@ def sib_var_writes(ctx, prog):
 
 sib_var_writes.rule_id = "C01.SIB-var-writes"
 
-RULES = [sib_children, pdom_sched, dom_stamp, latch, depend_on_cutoff, dtab_mapref, dtab_staleness, sib_var_writes]
+def data_arg_order(ctx, prog, R="C01.DATA-arg-order"):
+    ctx.rule(R, "each map-like node hands its inputs to the user function in declaration order: the j-th argument of "
+                "the mapper call in recompute_one is the value of the j-th input field (one, two, three, four, five, six)")
+    F = ctx.need_fn(R, q.NODE_IMPL + "recompute_one")
+    if F is None:
+        return
+    du = DefUse(F)
+    ORDER = ["one", "two", "three", "four", "five", "six"]
+    n = 0
+    for u in user_calls(prog):
+        if u.site.fn.path != F.path:
+            continue
+        mm = re.search(r"Map(\d)Node\.mapper$", u.field)
+        if not mm:
+            continue
+        k = int(mm.group(1))
+        t = u.site
+        tup = expr(F, t.args[1], du) if len(t.args) > 1 else ("?",)
+        names = []
+        if tup[0] == "agg" and tup[1] == "tuple":
+            for a in tup[2]:
+                fs = [str(x[2][-1]) for x in __import__("rules.expr", fromlist=["walk"]).walk(a) if x[0] == "field"]
+                names.append(fs[-1] if fs else "?")
+        n += 1
+        ctx.site(R, F, "Map%d mapper(%s)" % (k, ", ".join(names)))
+        if names == ORDER[:k]:
+            ctx.ok(R, "args:Map%d" % k)
+        else:
+            ctx.fail(R, "args:Map%d" % k, "the Map%d node calls its function with the inputs (%s), declared order is (%s): "
+                     "a function that is not symmetric in its arguments computes a wrong value on every recompute"
+                     % (k, ", ".join(names), ", ".join(ORDER[:k])), fn=F, span=t.span)
+    ctx.floor(R, n, 5)
+
+
+data_arg_order.rule_id = "C01.DATA-arg-order"
+
+RULES = [sib_children, pdom_sched, dom_stamp, latch, depend_on_cutoff, dtab_mapref, dtab_staleness, sib_var_writes, data_arg_order]
 
 # control signature of the bookkeeping effects this property depends on (rules/ctrlsig.py)
 from .ctrlsig import make_rule as _ctrl_rule  # noqa: E402
